@@ -786,3 +786,225 @@ Qed.
 
 Lemma val_lt_emax (x : f64) : Rabs (val x) < bpow radix2 1024.
 Proof. apply abs_B2R_lt_emax. Qed.
+
+Lemma rndR_abs_le_fmt (r m : R) : fmt m -> Rabs r <= m -> Rabs (rndR r) <= m.
+Proof. intros Fm H. apply abs_round_le_generic; [exact fexp64_valid|apply valid_rnd_N|exact Fm|exact H]. Qed.
+
+Lemma rndR_nonneg (r : R) : 0 <= r -> 0 <= rndR r.
+Proof. intros H. rewrite <- rndR_0. apply rndR_le. exact H. Qed.
+
+Lemma fadd_fin_pinf (s : f64) : finite s -> fadd s f64_pinf = f64_pinf.
+Proof. rewrite f64_pinf_eq. destruct s; try discriminate; reflexivity. Qed.
+
+(* one step from a finite state that stands for a non-negative number, adding a non-negative float:
+   the outcome is finite, or the sum field is +Inf *)
+Lemma nonneg_step (st : f64 * f64) (x : f64) : finp st -> finite x -> 0 <= val x ->
+  0 <= rsumF st -> Rabs (val (snd st)) <= alpha * rsumF st ->
+  finp (kstepF st x) \/ fst (kstepF st x) = f64_pinf.
+Proof.
+  destruct st as (s, c). unfold rsumF, finp, kstepF. cbn [fst snd]. intros (Fs & Fc) Fx Hx HR Hc.
+  pose proof alpha_bounds as Ha. pose proof u53_bounds as Hu. pose proof (bpow_gt_0 radix2 1024) as Hbig.
+  set (R0 := val s - val c) in *.
+  assert (Hc' : - (alpha * R0) <= val c <= alpha * R0) by (apply Rabs_le_inv; exact Hc).
+  assert (Hs0 : 0 <= val s) by (unfold R0 in *; nra).
+  destruct (fsub_cases x c Fx Fc) as [(Fy & Vy)|(Ey & Sg & Big)].
+  2:{ right. assert (Sx : Bsign 53 1024 x = false).
+      { destruct (Bsign 53 1024 x) eqn:Sx; [|reflexivity]. exfalso.
+        pose proof (sign_true_val x Sx) as H0. assert (Z : val x = 0) by lra.
+        rewrite Z, Rminus_0_l, (rndR_generic (- val c)) in Big by (apply fmt_opp, val_fmt).
+        rewrite Rabs_Ropp in Big. pose proof (val_lt_emax c). lra. }
+      rewrite Ey, Sx. apply (fadd_fin_pinf s Fs). }
+  set (y := fsub x c) in *.
+  (* s + y >= 0 *)
+  pose proof (rndR_minus_rel (val x) (val c) (val_fmt x) (val_fmt c)) as Hd. rewrite <- Vy in Hd.
+  assert (Hxc : Rabs (val x - val c) <= val x + alpha * R0).
+  { unfold Rminus. eapply Rle_trans; [apply Rabs_triang|]. rewrite Rabs_Ropp, (Rabs_pos_eq (val x)) by lra. lra. }
+  assert (Hsy : 0 <= val s + val y).
+  { apply Rabs_le_inv in Hd.
+    assert (u53 * Rabs (val x - val c) <= u53 * (val x + alpha * R0)) by (apply Rmult_le_compat_l; lra).
+    replace (val s + val y) with (R0 + val x + (val y - (val x - val c))) by (unfold R0; ring). nra. }
+  destruct (fadd_cases s y Fs Fy) as [(Ft & Vt)|(Et & Sg & Big)].
+  2:{ right. assert (Ss : Bsign 53 1024 s = false).
+      { destruct (Bsign 53 1024 s) eqn:Ss; [|reflexivity]. exfalso.
+        pose proof (sign_true_val s Ss). pose proof (sign_true_val y (eq_sym Sg)).
+        assert (Z : val s + val y = 0) by lra. rewrite Z, rndR_0, Rabs_R0 in Big. lra. }
+      rewrite Et, Ss. reflexivity. }
+  left. set (t := fadd s y) in *. split; [exact Ft|].
+  assert (Ht0 : 0 <= val t) by (rewrite Vt; apply rndR_nonneg; exact Hsy).
+  (* velvel - sum does not overflow *)
+  assert (Fz : finite (fsub t s) /\ val (fsub t s) = rndR (val t - val s)).
+  { destruct (fsub_cases t s Ft Fs) as [H|(_ & _ & Big)]; [exact H|exfalso].
+    destruct (Rle_or_lt (val s) (val t)) as [L|L].
+    - assert (Rabs (rndR (val t - val s)) <= val t).
+      { apply rndR_abs_le_fmt; [apply val_fmt|]. rewrite Rabs_pos_eq; lra. }
+      pose proof (val_lt_emax t) as M. rewrite (Rabs_pos_eq _ Ht0) in M. lra.
+    - assert (Rabs (rndR (val t - val s)) <= val s).
+      { apply rndR_abs_le_fmt; [apply val_fmt|]. rewrite Rabs_left1; lra. }
+      pose proof (val_lt_emax s) as M. rewrite (Rabs_pos_eq _ Hs0) in M. lra. }
+  destruct Fz as (Fz & Vz). set (z := fsub t s) in *.
+  (* (velvel - sum) - tmp does not overflow: it is at most 2 |rounding error of sum + tmp| <= 2u velvel *)
+  destruct (fsub_cases z y Fz Fy) as [(Fc' & _)|(_ & _ & Big)]; [exact Fc'|exfalso].
+  pose proof (rndR_plus_rel_res (val s) (val y) (val_fmt s) (val_fmt y)) as He. rewrite <- Vt in He.
+  pose proof (rndR_nearest (val t - val s) (val y) (val_fmt y)) as Hn. rewrite <- Vz in Hn.
+  replace (val y - (val t - val s)) with (- (val t - (val s + val y))) in Hn by ring. rewrite Rabs_Ropp in Hn.
+  assert (Hzy : Rabs (val z - val y) <= val t).
+  { replace (val z - val y) with ((val z - (val t - val s)) + (val t - (val s + val y))) by ring.
+    eapply Rle_trans; [apply Rabs_triang|]. rewrite (Rabs_pos_eq _ Ht0) in He. nra. }
+  assert (Rabs (rndR (val z - val y)) <= val t) by (apply rndR_abs_le_fmt; [apply val_fmt|exact Hzy]).
+  pose proof (val_lt_emax t) as M. rewrite (Rabs_pos_eq _ Ht0) in M. lra.
+Qed.
+
+Lemma kfoldF_R (xs : list f64) : forall st, finp (kfoldF xs st) ->
+  finp st /\ valp (kfoldF xs st) = kfoldR (vals xs) (valp st).
+Proof.
+  induction xs as [|x xs IH]; intros st F; [split; [exact F|reflexivity]|].
+  change (kfoldF (x :: xs) st) with (kfoldF xs (kstepF st x)) in *.
+  destruct (IH _ F) as (F1 & E). destruct (kstepF_R st x F1) as (F0 & _ & E0).
+  split; [exact F0|]. rewrite E, E0. reflexivity.
+Qed.
+
+Definition all_nonneg (xs : list f64) : Prop := Forall (fun x => 0 <= val x) xs.
+
+Lemma sumabsR_nonneg_eq (xs : list f64) : all_nonneg xs -> sumabsR (vals xs) = sumR (vals xs) /\ 0 <= sumR (vals xs).
+Proof.
+  induction xs as [|x xs IH]; intros H; [split; [reflexivity|cbn; lra]|].
+  inversion H as [|x0 l0 Hx H']; subst. destruct (IH H') as (E & P).
+  rewrite vals_cons, sumabsR_cons, sumR_cons, E, Rabs_pos_eq by exact Hx. split; [reflexivity|lra].
+Qed.
+
+(* non-negative addends: the sum field is finite, +Inf or NaN -- never -Inf *)
+Theorem nonneg_fold (xs : list f64) : all_finite xs -> all_nonneg xs -> (Z.of_nat (length xs) <= 2 ^ 50)%Z ->
+  finp (kfoldF xs (f64_zero, f64_zero)) \/ pinf_or_nan (fst (kfoldF xs (f64_zero, f64_zero))).
+Proof.
+  induction xs as [|x p IH] using rev_ind; intros FX NX Hn.
+  - left. split; reflexivity.
+  - apply Forall_app in FX. destruct FX as (FP & Fx). inversion Fx as [|x0 l0 Fx' _]; subst.
+    apply Forall_app in NX. destruct NX as (NP & Nx). inversion Nx as [|x0 l0 Nx' _]; subst.
+    rewrite app_length in Hn. cbn [length] in Hn. rewrite Nat2Z.inj_add in Hn.
+    assert (Hn1 : (Z.of_nat (length p) <= 2 ^ 50)%Z) by lia.
+    assert (EF : kfoldF (p ++ [x]) (f64_zero, f64_zero) = kstepF (kfoldF p (f64_zero, f64_zero)) x).
+    { unfold kfoldF. rewrite fold_left_app. reflexivity. }
+    rewrite EF. set (st := kfoldF p (f64_zero, f64_zero)) in *.
+    destruct (IH FP NP Hn1) as [F|[E|N]].
+    + destruct (kfoldF_R p _ F) as (_ & Ev). fold st in Ev.
+      assert (E0 : valp (f64_zero, f64_zero) = (0, 0)) by (unfold valp; cbn [fst snd]; rewrite val_zero; reflexivity).
+      rewrite E0 in Ev.
+      assert (Hlen : (Z.of_nat (length (vals p)) <= 2 ^ 50)%Z) by (rewrite vals_length; exact Hn1).
+      pose proof (kfoldR_err (vals p) (0, 0) wfR_zero (vals_fmt p) (len_alpha _ Hlen)) as Er.
+      pose proof (kfoldR_wfR (vals p) (0, 0) wfR_zero (vals_fmt p)) as Wr.
+      pose proof (wfR_comp_le _ Wr) as Hc. rewrite <- Ev in Er, Hc.
+      destruct (sumabsR_nonneg_eq p NP) as (Eabs & Pos).
+      pose proof alpha_bounds as Ha. pose proof (len_alpha _ Hlen) as Hb.
+      change (rsumR (0, 0)) with (0 - 0) in Er. rewrite Rminus_0_r, Rabs_R0, Rplus_0_l, Rplus_0_l, Eabs in Er.
+      change (rsumR (valp st)) with (rsumF st) in Er, Hc. change (snd (valp st)) with (val (snd st)) in Hc.
+      set (Sg := sumR (vals p)) in *. set (n := INR (length (vals p))) in *.
+      assert (Hn0 : 0 <= n) by apply pos_INR.
+      assert (E2 : 2 * n * alpha ^ 2 * Sg <= alpha * Sg).
+      { replace (2 * n * alpha ^ 2 * Sg) with ((2 * n * alpha) * (alpha * Sg)) by ring.
+        rewrite <- (Rmult_1_l (alpha * Sg)) at 2. apply Rmult_le_compat_r; nra. }
+      apply Rabs_le_inv in Er.
+      assert (HR : 0 <= rsumF st) by nra.
+      rewrite (Rabs_pos_eq _ HR) in Hc.
+      destruct (nonneg_step st x F Fx' Nx' HR Hc) as [F'|E']; [left; exact F'|right; left; exact E'].
+    + right. unfold kstepF. cbn [fst]. rewrite E. apply fadd_pinf_l.
+    + right. right. unfold kstepF. cbn [fst]. apply fadd_nan_l. exact N.
+Qed.
+
+(* Add(v, w) over a list with finite non-negative products: if the compensated sum is no longer finite and
+   simpleSum is +Inf, Sum() returns +Inf *)
+Theorem su_overflow_fallback (l : list (f64 * f64)) :
+  all_finite (prodsF l) -> all_nonneg (prodsF l) -> (Z.of_nat (length l) <= 2 ^ 50)%Z ->
+  let s := su_add_list su_new l in
+  su_simple s = f64_pinf -> is_finite 53 1024 (su_sum s) = false -> su_get_sum s = f64_pinf.
+Proof.
+  intros FP NP Hn s Hs Hnf.
+  assert (Hlen : (Z.of_nat (length (prodsF l)) <= 2 ^ 50)%Z) by (unfold prodsF; rewrite map_length; exact Hn).
+  pose proof (nonneg_fold (prodsF l) FP NP Hlen) as H.
+  rewrite <- su_new_sc, <- sc_add_list in H. fold s in H.
+  apply su_get_sum_pinf; [exact Hs|].
+  destruct H as [(F & _)|H]; [|exact H]. cbn [sc fst] in F. rewrite F in Hnf. discriminate Hnf.
+Qed.
+
+(* what well_formed becomes under Reweight / Rescale, on summaries *)
+Lemma su_scale_wfK (s s' : summary) (f : f64) (k e : R) : 0 <= k -> k * u53 <= / 2 -> 0 <= e ->
+  wfK k e (valp (sc s)) -> s' = su_reweight s f \/ s' = su_rescale s f -> finp (sc s') ->
+  wfK (k * (1 + 3 * u53)) ((1 + u53) * Rabs (val f) * e + 2 * eta64) (valp (sc s')).
+Proof.
+  intros Hk Hku He W Hs F.
+  assert (Esc : sc s' = kscaleF (sc s) f) by (destruct Hs as [-> | ->]; [apply sc_reweight|apply sc_rescale]).
+  rewrite Esc in F. destruct (kscaleF_R _ _ F) as (_ & _ & Ev). rewrite Esc, Ev.
+  apply kscaleR_wfK; assumption.
+Qed.
+
+Corollary su_scale_wf (s s' : summary) (f : f64) : wfS s -> s' = su_reweight s f \/ s' = su_rescale s f ->
+  finp (sc s') ->
+  Rabs (val (su_comp s')) <= 2 * (1 + 3 * u53) * u53 * Rabs (val (su_sum s')) + 2 * eta64.
+Proof.
+  intros W Hs F. pose proof u53_bounds as Hu.
+  destruct (su_scale_wfK s s' f 2 0 ltac:(lra) ltac:(lra) ltac:(lra) (wfK_of_wfR _ (wfF_wfR _ W)) Hs F) as (_ & _ & H).
+  unfold valp in H. cbn [fst snd sc] in H. rewrite Rmult_0_r, Rplus_0_l in H. exact H.
+Qed.
+
+(* ------------------------------------------------------------------ *)
+(* 8. summary-level wrappers and checkers (for Props/Kahan2.v)          *)
+(* ------------------------------------------------------------------ *)
+Theorem su_scale_summary (s s' : summary) (f : f64) : s' = su_reweight s f \/ s' = su_rescale s f ->
+  finite (su_sum s') -> finite (su_comp s') ->
+  su_sum s' = fmul (su_sum s) f /\ su_comp s' = fmul (su_comp s) f /\
+  val (su_sum s') = rndR (val (su_sum s) * val f) /\ val (su_comp s') = rndR (val (su_comp s) * val f) /\
+  Rabs (real_sum s' - val f * real_sum s) <=
+    u53 * Rabs (val f) * (Rabs (val (su_sum s)) + Rabs (val (su_comp s))) + 2 * eta64 /\
+  Rabs (val (su_comp s')) <= (1 + u53) * Rabs (val f) * Rabs (val (su_comp s)) + eta64.
+Proof.
+  intros Hs F1 F2.
+  assert (Esc : sc s' = kscaleF (sc s) f) by (destruct Hs as [-> | ->]; [apply sc_reweight|apply sc_rescale]).
+  assert (F : finp (kscaleF (sc s) f)) by (rewrite <- Esc; split; assumption).
+  destruct (su_scale_err (sc s) f F) as (V1 & V2 & H1 & H2). cbv zeta in V1, V2, H1, H2.
+  rewrite <- Esc in V1, V2, H1, H2.
+  split; [exact (f_equal fst Esc)|]. split; [exact (f_equal snd Esc)|].
+  split; [exact V1|]. split; [exact V2|]. split; [exact H1|exact H2].
+Qed.
+
+Theorem su_scale_pow2_summary (s s' : summary) (f : f64) (e : Z) : s' = su_reweight s f \/ s' = su_rescale s f ->
+  finite (su_sum s') -> finite (su_comp s') -> val f = bpow radix2 e ->
+  (val (su_sum s) = 0 \/ bpow radix2 (-1022) <= Rabs (val (su_sum s) * bpow radix2 e)) ->
+  (val (su_comp s) = 0 \/ bpow radix2 (-1022) <= Rabs (val (su_comp s) * bpow radix2 e)) ->
+  val (su_sum s') = val (su_sum s) * bpow radix2 e /\ val (su_comp s') = val (su_comp s) * bpow radix2 e /\
+  real_sum s' = bpow radix2 e * real_sum s.
+Proof.
+  intros Hs F1 F2 Ef H1 H2.
+  assert (Esc : sc s' = kscaleF (sc s) f) by (destruct Hs as [-> | ->]; [apply sc_reweight|apply sc_rescale]).
+  assert (F : finp (kscaleF (sc s) f)) by (rewrite <- Esc; split; assumption).
+  destruct (su_scale_pow2_exact (sc s) f e F Ef H1 H2) as (V1 & V2 & V3). cbv zeta in V1, V2, V3.
+  rewrite <- Esc in V1, V2, V3. split; [exact V1|]. split; [exact V2|exact V3].
+Qed.
+
+Theorem su_nonneg_never_ninf (l : list (f64 * f64)) :
+  all_finite (prodsF l) -> all_nonneg (prodsF l) -> (Z.of_nat (length l) <= 2 ^ 50)%Z ->
+  let s := su_add_list su_new l in
+  (finite (su_sum s) /\ finite (su_comp s)) \/ pinf_or_nan (su_sum s).
+Proof.
+  intros FP NP Hn s.
+  assert (Hlen : (Z.of_nat (length (prodsF l)) <= 2 ^ 50)%Z) by (unfold prodsF; rewrite map_length; exact Hn).
+  pose proof (nonneg_fold (prodsF l) FP NP Hlen) as H.
+  rewrite <- su_new_sc, <- sc_add_list in H. exact H.
+Qed.
+
+(* |x| >= b *)
+Definition abs_ge_b (x b : f64) : bool := fle b (fabs x).
+Lemma abs_ge_b_ok (x b : f64) : finite b -> finite x -> abs_ge_b x b = true -> val b <= Rabs (val x).
+Proof.
+  intros Fb Fx H. unfold abs_ge_b, fle, fcmp, b64_compare, fabs, b64_abs in H.
+  rewrite (Binary.Bcompare_correct 53 1024 b _ Fb) in H by (rewrite is_finite_Babs; exact Fx).
+  rewrite B2R_Babs in H. destruct (Rcompare_spec (val b) (Rabs (val x))) as [C|C|C]; try lra; discriminate H.
+Qed.
+
+(* all products finite and non-negative, as a boolean *)
+Definition nonneg_b (x : f64) : bool := f_is_finite x && fle f64_zero x.
+Lemma nonneg_b_ok (xs : list f64) : forallb nonneg_b xs = true -> all_finite xs /\ all_nonneg xs.
+Proof.
+  induction xs as [|x xs IH]; intros H; [split; constructor|].
+  cbn [forallb] in H. apply andb_prop in H. destruct H as (H1 & H2). destruct (IH H2) as (I1 & I2).
+  unfold nonneg_b in H1. apply andb_prop in H1. destruct H1 as (Fx & Lx).
+  split; constructor; try assumption. apply (proj1 (fle_zero x Fx)). exact Lx.
+Qed.
